@@ -21,7 +21,8 @@ import vthreads as vt  # noqa: E402
 
 TRACE = {'clock.py': None, 'machine.py': {'run', 'stop', '_wait'},
          'script_job.py': {'execute', 'request_stop'}}
-POP = [{"label": "A", "group": "G", "location": "L", "kind": "plain",
+POP_MATRIX = {"label": "Candle", "group": "G", "location": "L", "kind": "matrix", "height": 2, "width": 2}
+POP = [POP_MATRIX, {"label": "A", "group": "G", "location": "L", "kind": "plain",
         "color": [0, 0, 0, 3500], "power": 0}]
 DAY0 = 1000000.0 - (1000000.0 % 86400.0) + 86400.0     # a virtual midnight
 
@@ -128,6 +129,14 @@ def script_ops(stmts, costs):
         elif st[0] == 'cmd':
             wait()
             ops.append(('work', costs.pop(0) if costs else 0))
+        elif st[0] == 'block':
+            # a matrix block is ONE command: it waits once; what stands inside it (stages —
+            # written there or in a routine called from there — and commands to other lights)
+            # belongs to it and adds no delay of its own
+            wait()
+            for inner in st[1]:
+                if inner[0] == 'cmd':
+                    ops.append(('work', costs.pop(0) if costs else 0))
     return ops
 
 
@@ -145,6 +154,12 @@ def script_text(stmts):
             out.append('wait')
         elif st[0] == 'cmd':
             out.append(st[1])
+        elif st[0] == 'block':
+            inner = ['stage row 0' if i[0] == 'stage' else 'stage_it' if i[0] == 'callstage' else i[1]
+                     for i in st[1]]
+            out.append('set "Candle" begin ' + ' '.join(inner) + ' end')
+    if any(st[0] == 'block' and any(i[0] == 'callstage' for i in st[1]) for st in stmts):
+        out.insert(0, 'define stage_it begin stage column 1 end')
     return '\n'.join(out) + '\n'
 
 
@@ -577,11 +592,24 @@ def gen_script_case(rng, idx):
             raw = mode == 'raw'
             stmts.append(('units', mode))
             continue
-        if rng.random() < 0.5:
+        k = rng.random()
+        if k < 0.45:
             stmts.append(('wait',))
-        else:
+        elif k < 0.85:
             stmts.append(('cmd', rng.choice(['on all', 'off all'])))
             costs.append(dy(rng, 0, 6 * tick, 16) if rng.random() < 0.8 else dy(rng, 0, 40 * tick, 16))
+        else:
+            inner = []
+            for _ in range(rng.randint(1, 3)):
+                j = rng.random()
+                if j < 0.4:
+                    inner.append(('stage',))
+                elif j < 0.7:
+                    inner.append(('callstage',))
+                else:
+                    inner.append(('cmd', rng.choice(['on "A"', 'off "A"'])))
+                    costs.append(dy(rng, 0, 6 * tick, 16))
+            stmts.append(('block', inner))
     if has_at and tick < 1.0:
         tick = rng.choice([1.0, 2.0, 7.5])
     return {'mode': 'script', 'tick': tick, 't0': t0, 'stmts': stmts, 'costs': costs,
@@ -625,6 +653,10 @@ FIXED_SCRIPT = [
     ([('time', 2), ('units', 'rgb'), ('wait',), ('units', 'raw'), ('wait',), ('units', 'rgb'), ('wait',),
       ('units', 'logical'), ('wait',), ('units', 'raw'), ('wait',), ('units', 'logical'), ('cmd', 'on all')], [0.5]),
     ([('units', 'raw'), ('time', 750), ('units', 'rgb'), ('cmd', 'on all'), ('time', 0.5), ('wait',)], [0.125]),
+    # a matrix block is one command on the time line, whatever stands inside it
+    ([('time', 1.5), ('block', [('stage',), ('callstage',), ('cmd', 'on "A"'), ('callstage',)]),
+      ('cmd', 'off all'), ('block', [('callstage',)]), ('wait',)], [0.25, 0.0]),
+    ([('time', 0.5), ('block', [('cmd', 'on "A"'), ('cmd', 'off "A"')]), ('cmd', 'on all')], [0.0, 0.0, 0.125]),
 ]
 
 
